@@ -149,6 +149,7 @@ type PinnedFault struct {
 	Res   string `json:"res,omitempty"`
 	KindN int    `json:"kindN,omitempty"` // n-th call of (ctrl,verb,res); 0 = use N
 	N     int    `json:"n,omitempty"`     // n-th API call overall
+	AfterMs int64 `json:"afterMs,omitempty"` // >0: the first matching call at or after this plan time (instead of a count)
 	Fault string `json:"fault"`           // drop, lostack, conflict, crash-before, crash-after
 	RestartMs int64 `json:"restartMs,omitempty"`
 }
